@@ -24,8 +24,9 @@ Definition kp_dispatch_heap (f : nat) (id : Z) (key : list Z) (h : heap) : heap 
   end.
 
 Inductive KeyRoute (key : list Z) : nat -> Z -> heap -> Z -> Prop :=
-  | kr_leaf : forall f id h n, getn h id = Some n -> nk n = KLeaf -> KeyRoute key (S f) id h id
-  | kr_step : forall f id h c l,
+  | kr_leaf : forall f id h n, getn h id = Some n -> nk n = KLeaf -> is_dis n = false -> KeyRoute key (S f) id h id
+  | kr_step : forall f id h n c l,
+      getn h id = Some n -> is_dis n = false ->        (* never through a WidgetDisable *)
       focus_child (kp_dispatch_heap f id key h) id = Some c ->
       KeyRoute key f c (kp_dispatch_heap f id key h) l ->
       KeyRoute key (S f) id h l.
@@ -36,12 +37,14 @@ Proof.
   induction f as [|f IH]; intros id key h h' k1 off H l Hl; cbn [kp] in H; [exfalso; eapply raise_inv; exact H|].
   apply mbind_inv in H. destruct H as (h0 & n & Hrd & H). apply rd_inv in Hrd. destruct Hrd as [-> G].
   assert (Hsub : forall c hc' r, focus_child (kp_dispatch_heap f id key h) id = Some c ->
-                   kp f c key (kp_dispatch_heap f id key h) = (hc', ROk r) -> In l (snd r) -> KeyRoute key (S f) id h l).
-  { intros c hc' [k2 off2] Hfc Hk Hin. eapply kr_step; [exact Hfc|]. eapply IH; [exact Hk|exact Hin]. }
+                   kp f c key (kp_dispatch_heap f id key h) = (hc', ROk r) -> In l (snd r) -> is_dis n = false ->
+                   KeyRoute key (S f) id h l).
+  { intros c hc' [k2 off2] Hfc Hk Hin Hd. eapply kr_step; [exact G|exact Hd|exact Hfc|]. eapply IH; [exact Hk|exact Hin]. }
   assert (Hun : forall hc hc' r, unhandled key hc = (hc', ROk r) -> In l (snd r) -> False).
   { intros hc hc' r Hu Hin. apply ret_inv in Hu. destruct Hu as [_ ->]. exact Hin. }
   assert (Hdis : forall k, nk n = k -> k <> KCols -> k <> KLBox -> kp_dispatch_heap f id key h = h).
   { intros k Hk H1 H2. unfold kp_dispatch_heap. rewrite G, Hk. destruct k; try reflexivity; contradiction. }
+  destruct (is_dis n) eqn:Edis; [exfalso; eapply Hun; [exact H|exact Hl]|].
   destruct (nk n) eqn:K.
   - apply ret_inv in H. destruct H as [_ Hr]. injection Hr as _ ->. destruct Hl as [<-|[]]. eapply kr_leaf; eassumption.
   - (* pile *)
@@ -55,7 +58,7 @@ Proof.
     destruct (n_selc n); [|exfalso; eapply Hun; eassumption].
     destruct (nthz (items n) (nfocus n)) as [c|] eqn:En; [|exfalso; eapply raise_inv; exact Hr].
     pose proof (focus_child_list h id n c G Ee En) as Hf. rewrite K in Hf.
-    rewrite Hdis in Hsub. eapply Hsub; eassumption.
+    rewrite Hdis in Hsub. eapply Hsub; try eassumption; reflexivity.
   - (* columns *)
     destruct (is_empty n) eqn:Ee; [exfalso; eapply Hun; [exact H|exact Hl]|].
     destruct (nthz (items n) (nfocus n)) as [w|] eqn:En; [|exfalso; eapply raise_inv; exact H].
@@ -75,7 +78,7 @@ Proof.
       - apply w_pref_inv in Hw. destruct Hw as (n0 & G0 & ->). rewrite G in G0. injection G0 as <-.
         rewrite focus_child_set_pref by exact G. exact Hf.
       - apply ret_inv in Hw. destruct Hw as [-> _]. exact Hf. }
-    rewrite Hd in Hsub. eapply Hsub; eassumption.
+    rewrite Hd in Hsub. eapply Hsub; try eassumption; reflexivity.
   - (* gridflow *)
     specialize (Hdis KGrid eq_refl ltac:(discriminate) ltac:(discriminate)).
     destruct (is_empty n) eqn:Ee; [exfalso; eapply Hun; [exact H|exact Hl]|].
@@ -96,7 +99,7 @@ Proof.
     destruct (any_sel f h n && sel f h (cell_id n (nfocus n))); [|exfalso; eapply Hun; eassumption].
     unfold cell_id in Hr. destruct (nthz (items n) (nfocus n)) as [c|] eqn:En.
     + pose proof (focus_child_list h id n c G Ee En) as Hf. rewrite K in Hf.
-      rewrite Hdis in Hsub. eapply Hsub; eassumption.
+      rewrite Hdis in Hsub. eapply Hsub; try eassumption; reflexivity.
     + exfalso. apply kp_ok_getn in Hr. destruct Hr as (m & Gm). rewrite getn_neg in Gm by lia. discriminate.
   - (* frame *)
     specialize (Hdis KFrame eq_refl ltac:(discriminate) ltac:(discriminate)).
@@ -108,20 +111,20 @@ Proof.
     destruct (n_part n =? 101) eqn:E1.
     + destruct (n_b n) as [hd|] eqn:Eb.
       * destruct (sel f h hd); [|exfalso; eapply Hun; eassumption].
-        rewrite Hdis in Hsub. eapply (Hsub hd h' (k1, off)); [apply Hfc; intros; try congruence; lia|exact H|exact Hl].
+        rewrite Hdis in Hsub. eapply (Hsub hd h' (k1, off)); [apply Hfc; intros; try congruence; lia|exact H|exact Hl|reflexivity].
       * destruct (n_part n =? 102) eqn:E2; [lia|]. cbn in H.
         assert (E0 : n_part n =? 100 = false) by lia. rewrite E0 in H. cbn in H. exfalso; eapply Hun; eassumption.
     + destruct (n_part n =? 102) eqn:E2.
       * destruct (n_d n) as [ft|] eqn:Ed.
         -- destruct (sel f h ft); [|exfalso; eapply Hun; eassumption].
-           rewrite Hdis in Hsub. eapply (Hsub ft h' (k1, off)); [apply Hfc; intros; try congruence; lia|exact H|exact Hl].
+           rewrite Hdis in Hsub. eapply (Hsub ft h' (k1, off)); [apply Hfc; intros; try congruence; lia|exact H|exact Hl|reflexivity].
         -- assert (E0 : n_part n =? 100 = false) by lia. rewrite E0 in H. cbn in H. exfalso; eapply Hun; eassumption.
       * destruct (n_part n =? 100) eqn:E0; cbn in H; [|exfalso; eapply Hun; eassumption].
         destruct (sel f h (n_a n)); [|exfalso; eapply Hun; eassumption].
-        rewrite Hdis in Hsub. eapply (Hsub (n_a n) h' (k1, off)); [apply Hfc; intros; try congruence; lia|exact H|exact Hl].
+        rewrite Hdis in Hsub. eapply (Hsub (n_a n) h' (k1, off)); [apply Hfc; intros; try congruence; lia|exact H|exact Hl|reflexivity].
   - (* overlay *)
     specialize (Hdis KOvl eq_refl ltac:(discriminate) ltac:(discriminate)).
-    rewrite Hdis in Hsub. eapply (Hsub (n_a n) h' (k1, off)); [unfold focus_child; rewrite G, K; reflexivity|exact H|exact Hl].
+    rewrite Hdis in Hsub. eapply (Hsub (n_a n) h' (k1, off)); [unfold focus_child; rewrite G, K; reflexivity|exact H|exact Hl|reflexivity].
   - (* list box: the pending request is completed, then the key goes to the focus widget of that heap *)
     apply mbind_inv in H. destruct H as (h1 & u & Hu & H).
     assert (Hd : kp_dispatch_heap f id key h = h1).
@@ -148,7 +151,7 @@ Proof.
       - apply mbind_inv in H. destruct H as (h3 & hh2 & _ & H).
         apply mbind_inv in H. destruct H as (h4 & uc & _ & H). apply ret_inv in H. destruct H as [_ <-]. exact Hl. }
     destruct (sel f h1 fw); [|exfalso; eapply Hun; eassumption].
-    rewrite Hd in Hsub. eapply Hsub; eassumption.
+    rewrite Hd in Hsub. eapply Hsub; try eassumption; reflexivity.
 Qed.
 
 (* when nothing is pending the dispatch heaps differ from h only in pref_col: the route is the focus path of h *)
@@ -185,8 +188,9 @@ Definition rn_dispatch_heap (f : nat) (id : Z) (focus : bool) (h : heap) : heap 
 (* [hc]: the heap in which that child is then rendered (the siblings drawn before it may have completed
    pending requests of their own list boxes) *)
 Inductive FocusRender : nat -> Z -> heap -> Z -> Prop :=
-  | fr_leaf : forall f id h n, getn h id = Some n -> nk n = KLeaf -> FocusRender (S f) id h id
-  | fr_step : forall f id h c hc x,
+  | fr_leaf : forall f id h n, getn h id = Some n -> nk n = KLeaf -> is_dis n = false -> FocusRender (S f) id h id
+  | fr_step : forall f id h n c hc x,
+      getn h id = Some n -> is_dis n = false ->        (* never through a WidgetDisable *)
       focus_child (rn_dispatch_heap f id true h) id = Some c -> FocusRender f c hc x -> FocusRender (S f) id h x.
 
 Section RenderRoute.
@@ -216,8 +220,13 @@ End RenderRoute.
 Theorem render_focus_follows_route f : forall id focus h h' l, rn f id focus h = (h', ROk l) ->
   forall x, In x l -> focus = true /\ FocusRender f id h x.
 Proof.
-  induction f as [|f IH]; intros id focus h h' l H x Hx; cbn [rn] in H; [exfalso; eapply raise_inv; exact H|].
+  induction f as [|f IH]; intros id focus0 h h' l H x Hx; cbn [rn] in H; [exfalso; eapply raise_inv; exact H|].
   apply mbind_inv in H. destruct H as (h0 & n & Hrd & H). apply rd_inv in Hrd. destruct Hrd as [-> G].
+  cbv zeta in H. remember (focus0 && negb (is_dis n)) as focus eqn:Efoc.
+  cut (focus = true /\ FocusRender (S f) id h x).
+  { intros [Hf Hp]. split; [|exact Hp]. subst focus. apply andb_prop in Hf. apply Hf. }
+  assert (Hnd : focus = true -> is_dis n = false) by (intros Hf; subst focus; destruct (is_dis n); [rewrite andb_false_r in Hf; discriminate|reflexivity]).
+  clear Efoc.
   assert (Hdis : nk n <> KLBox -> rn_dispatch_heap f id true h = h).
   { intros Hk. unfold rn_dispatch_heap. rewrite G. destruct (nk n); try reflexivity. contradiction. }
   (* a list-like container whose focus index is read from node m of heap hd (the dispatch heap) *)
@@ -227,12 +236,12 @@ Proof.
   { intros keep hh hd m Hk Gm Hd Hl.
     destruct (rn_list_route f IH keep (items m) 0 (nfocus m) focus hh h' l ltac:(lia) Hl x Hx) as [Hf (c & hc & Hn & Hr)].
     split; [exact Hf|]. destruct Hd as [Hd|Hd]; [|congruence].
-    rewrite Z.sub_0_r in Hn. eapply fr_step; [|exact Hr]. rewrite Hd.
+    rewrite Z.sub_0_r in Hn. eapply fr_step; [exact G|exact (Hnd Hf)| |exact Hr]. rewrite Hd.
     unfold focus_child. rewrite Gm. destruct (nk m); try discriminate; destruct (items m) eqn:Ei;
       try exact Hn; unfold nthz in Hn; destruct (nfocus m <? 0); try discriminate; destruct (Z.to_nat (nfocus m)); discriminate. }
   destruct (nk n) eqn:K.
   - apply ret_inv in H. destruct H as [_ ->]. destruct focus; [|destruct Hx]. destruct Hx as [<-|[]].
-    split; [reflexivity|eapply fr_leaf; eassumption].
+    split; [reflexivity|eapply fr_leaf; [exact G|exact K|exact (Hnd eq_refl)]].
   - apply mbind_inv in H. destruct H as (h1 & hh & Hg & H). apply get_heap_inv in Hg. destruct Hg as [-> ->].
     eapply (Hlist _ h h n); [rewrite K; reflexivity|exact G|left; apply Hdis; discriminate|exact H].
   - eapply (Hlist _ h h n); [rewrite K; reflexivity|exact G|left; apply Hdis; discriminate|exact H].
@@ -247,7 +256,7 @@ Proof.
     assert (Hpart : forall p w hw, focus && (n_part n =? p) = true -> FocusRender f w hw x ->
                (p = 100 /\ w = n_a n) \/ (p = 101 /\ n_b n = Some w) \/ (p = 102 /\ n_d n = Some w) ->
                focus = true /\ FocusRender (S f) id h x).
-    { intros p w hw Hf Hr Hw. split; [lia|]. eapply fr_step; [|exact Hr]. rewrite Hdis. unfold focus_child. rewrite G, K.
+    { intros p w hw Hf Hr Hw. split; [lia|]. eapply fr_step; [exact G|apply Hnd; lia| |exact Hr]. rewrite Hdis. unfold focus_child. rewrite G, K.
       destruct Hw as [[-> ->]|[[-> Hw]|[-> Hw]]].
       - assert (E : n_part n =? 100 = true) by lia. rewrite E. reflexivity.
       - assert (E0 : n_part n =? 100 = false) by lia. assert (E1 : n_part n =? 101 = true) by lia. rewrite E0, E1. exact Hw.
@@ -269,7 +278,7 @@ Proof.
     + exfalso. destruct (n_b n) as [bt|]; [|apply ret_inv in Hb; destruct Hb as [_ ->]; destruct Hx].
       destruct (IH bt false h h1 b Hb x Hx) as [Hf _]. discriminate.
     + destruct (IH (n_a n) focus h1 h2 t Ht x Hx) as [Hf Hr]. split; [exact Hf|].
-      eapply fr_step; [|exact Hr]. rewrite Hdis. unfold focus_child. rewrite G, K. reflexivity.
+      eapply fr_step; [exact G|exact (Hnd Hf)| |exact Hr]. rewrite Hdis. unfold focus_child. rewrite G, K. reflexivity.
   - (* list box *)
     apply mbind_inv in H. destruct H as (h1 & vis & Hv & H).
     destruct (negb vis); [apply ret_inv in H; destruct H as [_ ->]; destruct Hx|].
